@@ -6,12 +6,17 @@
 #include "spec.h"
 #define VISIT_CYCLE _ZN4ikos38interleaved_fwd_fixpoint_iterator_impl12wto_iteratorI4TCFG2GVE5visitERNS_9wto_cycleIS2_EE
 extern const struct anon_f0db2cc371 _ZTVN4ikos9wto_cycleI4TCFGEE;
+extern const struct anon_f0db2cc371 _ZTVN4ikos10wto_vertexI4TCFGEE;
+extern const struct anon_f0db2cc371 _ZTVN4ikos38interleaved_fwd_fixpoint_iterator_impl12wto_iteratorI4TCFG2GVEE;
 /* the assumption map binds g_akey to *g_anode (or nothing); strengthening applies iff the map is present and non-empty */
 #define ASSUME_ON(self) ((self)->f4 != 0 && AMAP_COUNT((self)->f4) != 0)
 #define INIT_PRE(self) ((ASSUME_ON(self) && g_akey == g_head && g_anode != 0) ? MEET(fold_init(), ANODE_PAIR(g_anode)->f1.f0) : fold_init())
-#define MONITOR_ZERO (g_epoch == 0 && g_phase == 0 && g_ext_n == 0 && g_ref_n == 0 && g_leq_n == 0 && g_cp_n == 0 && g_setpre_n == 0 && g_pre_tab_set == 0)
+#define MONITOR_ZERO (g_body_cp == 0 && g_body_pre_set == 0 && g_epoch == 0 && g_phase == 0 && g_ext_n == 0 && g_ref_n == 0 && g_leq_n == 0 && g_cp_n == 0 && g_setpre_n == 0 && g_pre_tab_set == 0)
 
+static IT h_it; static PARAMS h_params; static GV h_fac; static SLIST h_lst; static AMAP h_amap; static ANODE h_anode;
+static SNODE h_snode; static VTX h_body;
 //@check id=visit_cycle fn=_ZN4ikos38interleaved_fwd_fixpoint_iterator_impl12wto_iteratorI4TCFG2GVE5visitERNS_9wto_cycleIS2_EE props=C05,C06 rec=1 unwind=5 vary=SKIP:0-1 cost=9 bounded="cycle with an empty body (self loop), at most 2 predecessors of the head, ascending sequence stabilising within 3 passes, descending_iterations <= 2" timeout=1500 first_timeout=900
+//@check id=visit_cycle_body fn=_ZN4ikos38interleaved_fwd_fixpoint_iterator_impl12wto_iteratorI4TCFG2GVE5visitERNS_9wto_cycleIS2_EE tag=visit_cycle harness=h_visit_cycle props=C05,C06 rec=1 unwind=5 defs=BODY=1,SKIP=0 tier=thorough backends=cvc5,minisat cost=9 mem=12 bounded="cycle whose body is ONE vertex with at most one predecessor, at most 2 predecessors of the head, ascending sequence stabilising within 3 passes, descending_iterations <= 2, start block outside the cycle" timeout=3000 first_timeout=2400
 /* SKIP (one run per value): m_skip on entry.  While skipping, a cycle that does not contain the requested entry block is
  * left untouched; a cycle that contains it (here: whose head it is) is analysed from the STORED pre-invariant of the
  * entry instead of the join of the predecessors, and the skipping ends. */
@@ -26,9 +31,20 @@ void VISIT_CYCLE(WI *self, CYC *cycle)
 __CPROVER_requires(VERBOSITY == 0 && MONITOR_ZERO && g_mode == 0)
 __CPROVER_requires(self->f5 == SKIP)
 __CPROVER_requires(cycle->f1 == g_head && g_np <= NPMAX && DESC_ITERS(self) < KMAX)
+#ifdef BODY
+/* BODY: the cycle has exactly one nested component, a vertex g_body (not the head, not the start block) with at most one
+ * predecessor; it is reached through the REAL boost slist / shared_ptr / v-table of wto_vertex and visited by the REAL
+ * visit(wto_vertex_t&) through the REAL v-table of the iterator */
+__CPROVER_requires(g_has_body == 1 && g_body != g_head && self->f2 != g_body && g_nbp <= 1 && h_body.f1 == g_body)
+__CPROVER_requires(cycle->f2.f0.f0 == &h_lst && SLIST_ROOT(&h_lst).f0 == &h_snode.f0.f0.f0 && h_snode.f0.f0.f0.f0 == &SLIST_ROOT(&h_lst) && h_snode.f1.f0.f0.f0 == (void *)&h_body)
+#else
+__CPROVER_requires(g_has_body == 0)
 __CPROVER_requires(cycle->f2.f0.f0 != 0 && SLIST_ROOT(cycle->f2.f0.f0).f0 == &SLIST_ROOT(cycle->f2.f0.f0))
+#endif
 __CPROVER_requires(self->f4 == 0 || (g_anode == 0 || (AMAP_COUNT(self->f4) != 0 && ANODE_PAIR(g_anode)->f0 == g_akey)))
-__CPROVER_assigns(cycle->f3, self->f5, g_epoch, g_phase, g_ext_n, g_ref_n, g_leq_n, g_cp_n, g_setpre_n, g_cur, g_first, g_pre_tab, g_fix, g_last_ref, g_leq_a, g_leq_b, g_pre_tab_set, g_leq_r)
+__CPROVER_assigns(cycle->f3, self->f5, g_epoch, g_phase, g_ext_n, g_ref_n, g_leq_n, g_cp_n, g_setpre_n, g_cur, g_first, g_pre_tab, g_fix, g_last_ref, g_leq_a, g_leq_b, g_pre_tab_set, g_leq_r, g_body_cp, g_body_pre, g_body_pre_set)
+/* every pass over the head includes one pass over the components of the cycle */
+__CPROVER_ensures((!SKIPPED(self) && g_has_body) ==> g_body_cp == g_cp_n)
 /* C06: a skipped cycle is left untouched and the skipping goes on */
 __CPROVER_ensures(SKIPPED(self) ==> (self->f5 == 1 && g_cp_n == 0 && g_setpre_n == 0 && g_leq_n == 0 && cycle->f3 == __CPROVER_old(cycle->f3)))
 __CPROVER_ensures(!SKIPPED(self) ==> self->f5 == 0)
@@ -46,7 +62,6 @@ __CPROVER_ensures(!SKIPPED(self) ==> (g_pre_tab_set && g_pre_tab == (g_ref_n == 
 __CPROVER_ensures((!SKIPPED(self) && DESC_ITERS(self) == 0) ==> (g_ref_n == 0 && g_phase == 1 && g_cp_n == g_ext_n + 1))
 __CPROVER_ensures(g_ref_n <= DESC_ITERS(self));
 
-static IT h_it; static PARAMS h_params; static GV h_fac; static SLIST h_lst; static AMAP h_amap; static ANODE h_anode;
 void h_visit_cycle(void){
   VERBOSITY = 0;
   IN(PARAMS, params); h_params = params; h_it.f4 = &h_params;
@@ -59,10 +74,20 @@ void h_visit_cycle(void){
   if (amode == 0) { wi.f4 = 0; g_anode = 0; }
   else { AMAP_COUNT(&h_amap) = acount; wi.f4 = &h_amap; g_akey = akey;
          if (amode == 1) g_anode = 0; else { ANODE_PAIR(&h_anode)->f0 = akey; ANODE_PAIR(&h_anode)->f1.f0 = aval; g_anode = &h_anode; } }
+#ifdef BODY
+  GHOST(uint64_t, body); GHOST(uint64_t, nbp); GHOST(uint64_t, bp0);
+  g_has_body = 1; g_body = body; g_nbp = nbp; g_bp[0] = bp0;
+  h_body.f0.f0 = (void *)&_ZTVN4ikos10wto_vertexI4TCFGEE.f0.a[2]; h_body.f1 = body;
+  h_snode.f1.f0.f0.f0 = (void *)&h_body; h_snode.f1.f0.f0.f1.f0 = 0;
+  h_snode.f0.f0.f0.f0 = &SLIST_ROOT(&h_lst); SLIST_ROOT(&h_lst).f0 = &h_snode.f0.f0.f0; SLIST_SIZE(&h_lst) = 1;
+  wi.f0.f0 = (void *)&_ZTVN4ikos38interleaved_fwd_fixpoint_iterator_impl12wto_iteratorI4TCFG2GVEE.f0.a[2];
+#else
+  g_has_body = 0;
   SLIST_ROOT(&h_lst).f0 = &SLIST_ROOT(&h_lst); SLIST_SIZE(&h_lst) = 0;
+#endif
   cyc.f0.f0 = (void *)&_ZTVN4ikos9wto_cycleI4TCFGEE.f0.a[2];
   cyc.f1 = head; cyc.f2.f0.f0 = &h_lst; cyc.f2.f0.f1.f0 = 0; cyc.f3 = nfix;
-  g_mode = 0; g_epoch = 0; g_phase = 0; g_ext_n = 0; g_ref_n = 0; g_leq_n = 0; g_cp_n = 0; g_setpre_n = 0; g_pre_tab_set = 0;
+  g_body_cp = 0; g_body_pre_set = 0; g_mode = 0; g_epoch = 0; g_phase = 0; g_ext_n = 0; g_ref_n = 0; g_leq_n = 0; g_cp_n = 0; g_setpre_n = 0; g_pre_tab_set = 0;
   VISIT_CYCLE(&wi, &cyc);
   REACH; }
 
@@ -81,10 +106,10 @@ void h_visit_cycle(void){
 #define V_PRE(self) (A_HIT(self) ? MEET(V_BASE(self), ANODE_PAIR(g_anode)->f1.f0) : V_BASE(self))
 //@check id=visit_vertex fn=_ZN4ikos38interleaved_fwd_fixpoint_iterator_impl12wto_iteratorI4TCFG2GVE5visitERNS_10wto_vertexIS2_EE props=C06 unwind=4 bounded="at most 2 predecessors of the block (the loop over the predecessors is unwound)"
 void VISIT_VERTEX(WI *self, VTX *vertex)
-__CPROVER_requires(VERBOSITY == 0 && MONITOR_ZERO && g_mode == 1)
+__CPROVER_requires(VERBOSITY == 0 && MONITOR_ZERO && g_mode == 1 && g_has_body == 0)
 __CPROVER_requires(self->f5 <= 1 && vertex->f1 == g_head && g_np <= NPMAX)
 __CPROVER_requires(self->f4 == 0 || (g_anode == 0 || (AMAP_COUNT(self->f4) != 0 && ANODE_PAIR(g_anode)->f0 == g_akey)))
-__CPROVER_assigns(self->f5, g_epoch, g_phase, g_ext_n, g_ref_n, g_leq_n, g_cp_n, g_setpre_n, g_cur, g_first, g_pre_tab, g_fix, g_last_ref, g_leq_a, g_leq_b, g_pre_tab_set, g_leq_r)
+__CPROVER_assigns(self->f5, g_epoch, g_phase, g_ext_n, g_ref_n, g_leq_n, g_cp_n, g_setpre_n, g_cur, g_first, g_pre_tab, g_fix, g_last_ref, g_leq_a, g_leq_b, g_pre_tab_set, g_leq_r, g_body_cp, g_body_pre, g_body_pre_set)
 /* skipping */
 __CPROVER_ensures((__CPROVER_old(self->f5) == 1 && g_head != self->f2) ==> (self->f5 == 1 && g_cp_n == 0 && g_setpre_n == 0))
 __CPROVER_ensures((__CPROVER_old(self->f5) == 0 || g_head == self->f2) ==> (self->f5 == 0 && g_cp_n == 1 && g_first == V_PRE(self)))
@@ -103,6 +128,6 @@ void h_visit_vertex(void){
   else { AMAP_COUNT(&h_amap) = acount; wi.f4 = &h_amap; g_akey = akey;
          if (amode == 1) g_anode = 0; else { ANODE_PAIR(&h_anode)->f0 = akey; ANODE_PAIR(&h_anode)->f1.f0 = aval; g_anode = &h_anode; } }
   vtx.f1 = head;
-  g_mode = 1; g_epoch = 0; g_phase = 0; g_ext_n = 0; g_ref_n = 0; g_leq_n = 0; g_cp_n = 0; g_setpre_n = 0; g_pre_tab_set = 0;
+  g_has_body = 0; g_body_cp = 0; g_body_pre_set = 0; g_mode = 1; g_epoch = 0; g_phase = 0; g_ext_n = 0; g_ref_n = 0; g_leq_n = 0; g_cp_n = 0; g_setpre_n = 0; g_pre_tab_set = 0;
   VISIT_VERTEX(&wi, &vtx);
   REACH; }
